@@ -361,6 +361,10 @@ func init() {
 	// add Sexp types
 
 	gsr.RegisterBuiltin("symbol", &RegisteredType{GenDefMap: false, Factory: func(env *Zlisp, h *SexpHash) (interface{}, error) {
+		if env != nil {
+			// the zero value of the type is the symbol named "", interned like any other
+			return env.MakeSymbol(""), nil
+		}
 		return &SexpSymbol{}, nil
 	}})
 
